@@ -823,9 +823,11 @@ impl<F: Fam> Ctx<F> {
                 // consequences owned by that property (lost elements, short iterators, leaks) can
                 // show; the desync itself is C05's to report.
                 // (for C06 also when it is ahead: the double drops that follow are what C06 owns, the
-                // element types guard their own memory, and a crash of the worker counts for C06)
+                // element types guard their own memory, and a crash of the worker counts for C06; for
+                // C17 as well: what a stale cursor leads to is exactly where the two build profiles
+                // part - one stops on a dependency's debug assertion, the other goes on)
                 let soft = matches!(self.focus, Some(p) if p != C05 && p != C07)
-                    && (o.cursor_remaining < o.len || self.focus == Some(C06))
+                    && (o.cursor_remaining < o.len || self.focus == Some(C06) || self.focus == Some(C17))
                     && !self.post_fault;
                 if soft {
                     self.stats.soft_cursor_desync += 1;
